@@ -983,11 +983,7 @@ class HierarchicalMachine(Machine):
             path = name.split(self.state_cls.separator)
             value = state.value if isinstance(state.value, Enum) else name
             trig_func = partial(self.is_state, value, model)
-            if hasattr(model, 'is_' + path[0]):
-                getattr(model, 'is_' + path[0]).add(trig_func, path[1:])
-            else:
-                assert not path[1:], "nested path should be empty"
-                self._checked_assignment(model, 'is_' + path[0], FunctionWrapper(trig_func))
+            self._add_wrapped_function(model, 'is_' + path[0], trig_func, path[1:])
         with self(state.name):
             for event in self.events.values():
                 self._add_trigger_to_model(event.name, model)
@@ -1079,14 +1075,24 @@ class HierarchicalMachine(Machine):
         # FunctionWrappers are only necessary if a custom separator is used
         if trigger.startswith('to_') and self.state_cls.separator != '_':
             path = trigger[3:].split(self.state_cls.separator)
-            if hasattr(model, 'to_' + path[0]):
-                # add path to existing function wrapper
-                getattr(model, 'to_' + path[0]).add(trig_func, path[1:])
-            else:
-                # create a new function wrapper
-                self._checked_assignment(model, 'to_' + path[0], FunctionWrapper(trig_func))
+            self._add_wrapped_function(model, 'to_' + path[0], trig_func, path[1:])
         else:
             self._checked_assignment(model, trigger, trig_func)
+
+    def _add_wrapped_function(self, model, name, func, path):
+        """Adds func to the FunctionWrapper assigned to the model as 'name' (e.g. model.is_A.s1 or model.to_A.s1).
+        The wrapper itself is subject to the model override policy: attributes defined by the model are not
+        touched (or replaced if model_override is set) and nested functions are only added to wrappers."""
+        bound_func = getattr(model, name, None)
+        if isinstance(bound_func, FunctionWrapper):
+            # add path to existing function wrapper
+            bound_func.add(func, path)
+        elif not path:
+            # create a new function wrapper
+            self._checked_assignment(model, name, FunctionWrapper(func))
+        else:
+            _LOGGER.warning("%sSkip binding of '%s' to model due to model override policy.", self.name,
+                            self.state_cls.separator.join([name] + path))
 
     def build_state_tree(self, model_states, separator, tree=None):
         """Converts a list of current states into a hierarchical state tree.
